@@ -3,9 +3,14 @@ package c13
 import (
 	"context"
 	"fmt"
+	"bytes"
+	"strconv"
 	"strings"
 	"sync"
+	"sync/atomic"
 	"time"
+
+	"k8s.io/klog"
 
 	coordinationv1 "k8s.io/api/coordination/v1"
 	apierrors "k8s.io/apimachinery/pkg/api/errors"
@@ -133,6 +138,10 @@ func realTakeoverScenario(r *vkit.R, g *vkit.Rand, N int) {
 			found++
 		}
 	}
+	// From here on the log sink delays "Stop leading <odd shard>" (see stopLeadingDelay): for odd shards the report of the new
+	// leader gets ahead of the end of the term, for even shards client-go's usual order is left alone.
+	atomic.AddInt32(&delayStopLeading, 1)
+	defer atomic.AddInt32(&delayStopLeading, -1)
 	// the other identity takes every lease at once
 	// the harness reads and writes the leases through the object tracker, not through the clientset: its own accesses must
 	// not be counted by the reactor that counts the elections' polls
@@ -148,7 +157,13 @@ func realTakeoverScenario(r *vkit.R, g *vkit.Rand, N int) {
 		}
 		return l.DeepCopy(), nil
 	}
-	putLease := func(l *coordinationv1.Lease) error { return kube.Tracker().Update(leaseGVR, l, ns) }
+	// writes go through the clientset: the fake serialises whole calls (reactor chain included), so a renewal of the old holder
+	// is either entirely before a write of the harness or meets the conflict reactor; a write straight into the tracker could
+	// slip between that reactor's check and the renewal's own write
+	putLease := func(l *coordinationv1.Lease) error {
+		_, err := kube.CoordinationV1().Leases(ns).Update(context.Background(), l, metav1.UpdateOptions{})
+		return err
+	}
 	holder := func(s int) string {
 		l, err := getLease(s)
 		if err != nil || l.Spec.HolderIdentity == nil {
@@ -235,7 +250,26 @@ func realTakeoverScenario(r *vkit.R, g *vkit.Rand, N int) {
 		}
 		return true
 	}) {
-		r.Inconclusive("real takeover: not every election ended its term and resumed polling within the watchdog")
+		mu.Lock()
+		noStop, fewPolls, stillLeader, notOther := 0, 0, 0, 0
+		for s := 0; s < N; s++ {
+			switch st := stops[s]; {
+			case st == nil:
+				noStop++
+			case gets[leaseName(s)] < st.getsAtStop+3:
+				fewPolls++
+			}
+		}
+		mu.Unlock()
+		for s := 0; s < N; s++ {
+			if el.IsLeader(s) {
+				stillLeader++
+			}
+			if holder(s) != other {
+				notOther++
+			}
+		}
+		r.Inconclusive(fmt.Sprintf("real takeover: not every election ended its term and resumed polling within the watchdog (of %d: %d never delivered OnStoppedLeading, %d polled fewer than 3 times since, %d still IsLeader, %d leases not the other identity's)", N, noStop, fewPolls, stillLeader, notOther))
 		return
 	}
 	info, ierr := rl.ServerInfo()
@@ -292,3 +326,29 @@ func realTakeoverScenario(r *vkit.R, g *vkit.Rand, N int) {
 	r.Count("real_takeover_scenarios", 1)
 	r.Distinct(vkit.Hash64("real-takeover", identity, fmt.Sprint(N)))
 }
+
+// Schedule perturbation without touching the code under test: the elector's stopLeading (the function client-go calls as
+// OnStoppedLeading) starts with klog.Infof("Stop leading %v", shard). client-go has started the goroutine that reports the
+// new leader (OnNewLeader) immediately before; which of the two gets to the leader table first is a matter of scheduling
+// (on an idle machine both orders occur, on a saturated one almost only "term ended first"). The harness owns the log sink
+// (the logs are discarded anyway): while a takeover scenario runs, the line "Stop leading <odd shard>" is held back for
+// 20 ms, which lets the report goroutine run first. Nothing is judged by this; it only makes both orders occur in every run.
+var delayStopLeading int32
+
+type perturbingSink struct{}
+
+func (perturbingSink) Write(p []byte) (int, error) {
+	if atomic.LoadInt32(&delayStopLeading) > 0 {
+		if i := bytes.Index(p, []byte("Stop leading ")); i >= 0 {
+			f := bytes.Fields(p[i+len("Stop leading "):])
+			if len(f) > 0 {
+				if n, err := strconv.Atoi(string(f[0])); err == nil && n%2 == 1 {
+					time.Sleep(20 * time.Millisecond)
+				}
+			}
+		}
+	}
+	return len(p), nil
+}
+
+func installPerturbingSink() { klog.SetOutput(perturbingSink{}) }
